@@ -18,7 +18,7 @@ CFG = dict(
              "duplicate, empty key); sizes N*255+r for N in 0..3(4) and r in {0,1,127,254} shuffled, with duplicates of the rows "
              "around every block boundary prepended/appended, run sizes 1/64/4096/huge, workers 1/3/4/8/16; all C01 random "
              "configurations, one third through Sorter.AddRow + Inserter.IngestTableFromSorter (cells with CRLF allowed); "
-             "wrgl commit + doctor over the repository. distinct = distinct case text; non-trivial = at least two rows",
+             "wrgl commit + doctor over the repository. forced worker schedules as in C01; one table of 1025 blocks (261121 rows; thorough also 1023 and 1024 blocks) read back through objects.GetTable with counts only; distinct = distinct case text; non-trivial = at least two rows",
         trusted=["hashes never enter the model: the harness recomputes MeowHash of the StrList encoding of every key/row and "
                  "maps each index entry back to the row it denotes",
                  "rows whose key occurs with two different contents inside ONE run are compared by key only (unstable sort)",
